@@ -1,0 +1,33 @@
+//go:build verif
+
+package stream
+
+// Contracts for property C46, Zip: every tuple handed to the combine function has
+// storage of its own, allocated for that tuple - so whatever combine returns (Zip
+// returns a copy, a user's ZipWith function may return the slice itself), one
+// emitted tuple is never overwritten by the next one built in the same pass - and
+// what is told downstream is exactly what combine returned for it, numbered
+// consecutively.
+// The per-input buffers are queues held BY VALUE in a slice; the contract language
+// cannot state the queue invariant for such interior receivers, so the preconditions
+// of the queue operations are assumed here (assume-requires; listed as an assumption).
+
+//@ property C46
+
+//@ ghost local zn_top uintptr
+//@ ghost local zn_tuples int
+//@ ghost local zn_told int
+
+//@ func (*zipNSourceActor).tryEmit(a, rctx)
+//@   bounds off
+//@   assume-requires (*queue).pop, (*queue).empty
+//@   ghost entry zn_tuples = 0
+//@   ghost entry zn_told = 0
+//@   loop 1 invariant one-element-told-per-tuple-built: zn_told == zn_tuples
+//@   at call 1 of (*zipNSourceActor).allReady ghost zn_top = alloctop()
+//@   at call 1 of dynamic assert each-tuple-has-storage-of-its-own: block(arg0) >= zn_top && len(arg0) == len(a.bufs) && offset(arg0) == 0
+//@   at call 1 of dynamic ghost zn_tuples = zn_tuples + 1
+//@   at call 1 of (*ReceiveContext).Tell assert tells-downstream-one-element-per-tuple: zn_tuples == zn_told + 1 && arg1 == a.downstream && is(arg2, *streamElement) && arg2.(*streamElement).seqNo == a.seqNo
+//@   at call 1 of (*ReceiveContext).Tell ghost zn_told = zn_told + 1
+//@   at call 2 of (*ReceiveContext).Tell assert type-mismatch-is-reported-downstream: arg1 == a.downstream && is(arg2, *streamError)
+//@   at call 3 of (*ReceiveContext).Tell assert completion-goes-downstream: arg1 == a.downstream && is(arg2, *streamComplete)
